@@ -248,9 +248,60 @@ def _omen_quit_order(ctx, rule):
     return c15.r2_no_generated_unemitted(ctx, rule)
 
 
+def r7_stdin_only_in_helper_thread(ctx, rule):
+    """Standard input is dereferenced only by the keyboard thread.  With descriptor 0 closed sys.stdin is None, with a closed
+    stream every method raises ValueError, at EOF input() raises EOFError: inside the daemon thread that merely ends the
+    thread, in the main thread it ends the run before (or in the middle of) the guess stream (seed C12-i: `if sys.stdin.isatty():`
+    around the key hints in CrackingSession.run).  Every function reachable from the guesser's entry point without going through
+    the thread target is searched for `sys.stdin.<attr>`, `sys.__stdin__.<attr>`, input() and fileinput; a use inside a try whose
+    handlers catch Exception (or the errors in question) is accepted."""
+    closure = ctx.resolver.closure(['pcfg_guesser.py'])
+    roots = [q for q in ('pcfg_guesser.py::main',) if ctx.repo.has(q)]
+    if not roots:
+        ctx.unk(rule, 'pcfg_guesser.py', 'entry point main() not found')
+        return
+    par = ctx.cg.reach(roots, closure, stop=(KEY,))
+    par.pop(KEY, None)
+    n = 0
+    bad = False
+    for q in sorted(par):
+        fn = ctx.repo.fn(q)
+        mod = ctx.repo.modules[q.partition('::')[0]]
+        ctx.stats['functions'].add(q)
+        n += 1
+        for node in walk_local(fn):
+            use = None
+            if isinstance(node, ast.Attribute) and isinstance(node.value, ast.Attribute) and dotted(node.value) in ('sys.stdin', 'sys.__stdin__'):
+                use = U(node)
+            elif isinstance(node, ast.Call) and call_name(node) in ('input', 'raw_input', 'fileinput.input', 'sys.stdin.read', 'sys.stdin.readline'):
+                use = U(node)[:40]
+            if use is None:
+                continue
+            protected = False
+            cur = node
+            while cur is not None and cur is not fn:
+                parn = mod.parents.get(id(cur))
+                if isinstance(parn, ast.Try) and any(cur is s_ for s_ in parn.body):
+                    for h in parn.handlers:
+                        names = U(h.type) if h.type is not None else 'BaseException'
+                        if any(k in names for k in ('Exception', 'BaseException')) and not any(isinstance(x, ast.Raise) for x in walk_stmts(h.body)):
+                            protected = True
+                cur = parn
+            if protected:
+                ctx.ok(rule, q, 'stdin use %s is inside a handler for every error' % use)
+                continue
+            bad = True
+            ctx.bad(rule, q, 'main thread dereferences standard input: %s' % use,
+                    'with standard input closed sys.stdin is None (AttributeError) or a closed stream (ValueError), at end of input '
+                    'input() raises EOFError: in the main thread the exception ends the run, so the guess stream is cut short for '
+                    'that stdin condition only', {'call_path': ctx.cg.path_to(par, q)}, node)
+    if ctx.floor(rule, 'pcfg_guesser.py', n, 20, 'functions of the main thread examined') and not bad:
+        ctx.ok(rule, 'pcfg_guesser.py', 'no function reachable from main() outside the keyboard thread touches standard input (%d functions)' % n)
+
+
 def rules(tier):
     return [('C12.R1', r1_no_liveness_exit), ('C12.R2', r2_quit_flag_writers), ('C12.R3', r3_quit_points),
-            ('C12.R4', r4_thread_write_set), ('C12.R5', r5_thread_stdout), ('C12.R6', _omen_quit_order)]
+            ('C12.R4', r4_thread_write_set), ('C12.R5', r5_thread_stdout), ('C12.R6', _omen_quit_order), ('C12.R7', r7_stdin_only_in_helper_thread)]
 
 
 META = {
